@@ -280,6 +280,9 @@ func (c *Call) predict() (res *model.Result, unordered bool) {
 		return &model.Result{Excluded: []string{"helper-call"}}, c.H.Name == "dump" // (Go-map order inside the dump)
 	}
 	if c.V != nil {
+		if c.V.NoModel {
+			return &model.Result{Excluded: []string{"malformed-rule-text"}}, false
+		}
 		res = c.V.expect()
 		return res, c.V.Carrier == "mapiface" && len(c.V.Others) > 0
 	}
@@ -446,6 +449,15 @@ func genScalarCall(t *rapid.T, mg *msgGen) *ScalarCase {
 			}
 			c.RePats[r] = "^[a-c]+$"
 		}
+	}
+	if rapid.IntRange(0, 9).Draw(t, "oddQuote") == 4 {
+		// an apostrophe in a message or option: the quote never closes (the splitter's quote-aware path
+		// runs to the end of the text with an open quote on its stack)
+		c.Rules = append(c.Rules, rapid.SampledFrom([]string{"required|can't be empty", "to=1~2|it's too long", "in=(it's/a)", "re='^a", "prefix='"}).Draw(t, "oddQuoteRule"))
+		if rapid.Bool().Draw(t, "oddQuoteFirst") {
+			c.Rules[0], c.Rules[len(c.Rules)-1] = c.Rules[len(c.Rules)-1], c.Rules[0]
+		}
+		c.NoModel = true
 	}
 	// a function defined for this call only, named like a built-in, like a global function or freshly
 	if rapid.IntRange(0, 2).Draw(t, "sCallFn") == 0 {
